@@ -14,13 +14,18 @@ RULE = ("The envelope is part of the trace validator and applies to every event 
         "documented types (typed signature table in harness/advprogs.py) but arbitrary values - negative, zero, large, None, "
         "empty, mismatched lengths, 60 malformed token strings, self as operand - in sequences of 6-16 calls on 1-3 objects, "
         "under msb0 and lsb0, interleaved with fully specified calls so that silent corruption shows against the exact "
-        "semantics. Derive-then-mutate programs (pack with bits tokens, Dtype('bits').build, copies, slices, constructors, operators, then in-place changes of the result) show any object a call corrupts through shared storage. Results of the adversarial calls themselves are not judged (Step leaves them unconstrained).")
+        "semantics. Derive-then-mutate programs (pack with bits tokens, Dtype('bits').build, copies, slices, constructors, operators, then in-place changes of the result) show any object a call corrupts through shared storage. (C2) the repository's own 836 tests run under an external tracer (harness/tracer_plugin.py, nothing in the repository changed): every outermost public call they make on a bitstring is recorded with the state of the objects involved and of the other objects the test holds, and judged by the same validator - valid positions, len = len(bin), immutable objects constant, at most the target changes, options untouched - so the existing tests get these clauses evaluated at every step although their own assertions do not mention them. Results of the adversarial calls themselves are not judged (Step leaves them unconstrained).")
 
 
 def run(chk):
     thorough = chk.tier == 'thorough'
     rng = random.Random(chk.seed * 201 + 20)
     k = 5 if thorough else 1
+    # the repository's own tests under the external tracer, judged by the same validator (runs beside the rest)
+    from concurrent.futures import ThreadPoolExecutor
+    from harness import exttrace
+    ext_pool = ThreadPoolExecutor(max_workers=1)
+    ext = ext_pool.submit(exttrace.run, chk, thorough)
     common.run_families(chk, [('grow', 2, 2, 2), ('stream', 2, 2, 2)], ['BitStream'])
     chk.queue([advprogs.adversarial_program(rng) for _ in range(2500 * k)], 'adversarial')
     chk.queue([advprogs.adversarial_program(rng, lsb0=True) for _ in range(1200 * k)], 'adversarial-lsb0')
@@ -32,5 +37,7 @@ def run(chk):
     chk.queue([isoprogs.isolation_program(rng, lsb0=(i % 5 == 4)) for i in range(500 * k)], 'isolation')
     chk.queue([isoprogs.derive_then_mutate_program(rng, lsb0=(i % 5 == 4)) for i in range(1200 * k)], 'derive-then-mutate')
     chk.flush()
+    ext.result()
+    ext_pool.shutdown()
     return chk.finish(rule=RULE, assumptions=common.ASSUME + [
         'the signature table in harness/advprogs.py reflects the documented parameter types'])
